@@ -265,7 +265,8 @@ def run(ctx):
         "model_diffs": sum(diffs.values()),
         "real_encoder_collisions": collisions,
         "negative_witnesses_real": len(pairs) - len(stale), "negative_witnesses_stale": len(stale),
-        "programs": {f"{k[0]}:{k[1]}": v for k, v in sorted(outcome_count.items())},
+        "programs": len(rows) + len(corpus),
+        "program_outcomes": {f"{k[0]}:{k[1]}": v for k, v in sorted(outcome_count.items())},
         "whole_program_name_predictions": {"checked": n_expect, "declared_in_real_output": n_expect_ok},
         "corpus_programs_clean": f"{sum(1 for r in corpus if r[3] == 'ok' and not parse_failures(r[4]))}/{len(corpus)}",
         "impl_oracle_failures": len(ctx.violations) + sum(h["count"] for h in ctx.known_hits),
